@@ -188,6 +188,41 @@ func runC13(c *eng.Ctx) {
 	ruleLockPairing(c, "server/partition.go")
 	c.Floor(30)
 
+	// ---- R13.6 cancelling a subscription really signals its loop, once
+	c.Rule("R13.6", "K2")
+	if fn := c.Fn("server.(*subscription).Close"); fn != nil {
+		closedF := p.Field("server", "subscription", "closed")
+		var closes []ssa.Instruction
+		eng.Instrs(fn, func(in ssa.Instruction) {
+			if call, ok := in.(*ssa.Call); ok {
+				if b, ok := call.Call.Value.(*ssa.Builtin); ok && b.Name() == "close" && eng.Load(closedF, nil)(call.Call.Args[0]) {
+					closes = append(closes, in)
+				}
+			}
+		})
+		ok := len(closes) == 1
+		// the close is skipped when the channel is already closed: it is not reachable from the edge on which the receive succeeded
+		if ok {
+			var sel *ssa.Select
+			eng.Instrs(fn, func(in ssa.Instruction) {
+				if s, isS := in.(*ssa.Select); isS {
+					sel = s
+				}
+			})
+			ok = sel != nil && !sel.Blocking
+			if ok {
+				got := eng.CmpEdges(fn, func(v ssa.Value) bool {
+					ex, isE := v.(*ssa.Extract)
+					return isE && ex.Tuple == ssa.Value(sel) && ex.Index == 0
+				}, eng.IntConst(0), eng.EQ)
+				q := &eng.PathQuery{Fn: fn, FromEdges: got, Target: func(x ssa.Instruction) bool { return x == closes[0] }}
+				ok = len(got) > 0 && q.Find() == nil
+			}
+		}
+		c.Check(ok, "Close signals the subscription's loop exactly once", p.Pos(fn.Pos()), "close(s.closed) unless it is already closed", "subscription.Close does not close s.closed (the replaced subscriber keeps consuming) or can close it twice (panic when a replaced subscriber also ends by itself)")
+	}
+	c.Floor(1)
+
 	// ---- R13.4 identity de-registration
 	c.Rule("R13.4", "K1")
 	n := 0
